@@ -384,3 +384,54 @@ mod tests {
         assert_eq!(rev_dotprod, expected);
     }
 }
+
+/// Verification hooks (only compiled with `--cfg rten_verif`).
+#[cfg(rten_verif)]
+pub mod verif {
+    use super::{GenericInt8Dot, SimdInt8DotOp};
+
+    /// Names accepted by [`eval_with`].
+    pub const INT8_DOT_ISAS: [&str; 3] = ["generic", "avx2", "avx512-vnni"];
+
+    /// Evaluate `op` with the named int8 dot product ISA instead of the one
+    /// [`SimdInt8DotOp::dispatch`] would pick. Returns `None` if the ISA is
+    /// not supported on this system.
+    pub fn eval_with<Op: SimdInt8DotOp>(name: &str, op: Op) -> Option<Op::Output> {
+        match name {
+            "generic" => Some(op.eval(GenericInt8Dot::new())),
+            #[cfg(target_arch = "x86_64")]
+            "avx2" => {
+                #[target_feature(enable = "avx2")]
+                #[target_feature(enable = "avx")]
+                #[target_feature(enable = "fma")]
+                unsafe fn run<Op: SimdInt8DotOp>(
+                    isa: impl super::Int8DotIsa,
+                    op: Op,
+                ) -> Op::Output {
+                    op.eval(isa)
+                }
+                let isa = super::x86_64::Avx2Int8DotIsa::new()?;
+                // Safety: AVX2 is supported.
+                Some(unsafe { run(isa, op) })
+            }
+            #[cfg(target_arch = "x86_64")]
+            "avx512-vnni" => {
+                #[target_feature(enable = "avx512f")]
+                #[target_feature(enable = "avx512vl")]
+                #[target_feature(enable = "avx512bw")]
+                #[target_feature(enable = "avx512dq")]
+                #[target_feature(enable = "avx512vnni")]
+                unsafe fn run<Op: SimdInt8DotOp>(
+                    isa: impl super::Int8DotIsa,
+                    op: Op,
+                ) -> Op::Output {
+                    op.eval(isa)
+                }
+                let isa = super::x86_64::Avx512VnniIsa::new()?;
+                // Safety: AVX-512 VNNI is supported.
+                Some(unsafe { run(isa, op) })
+            }
+            _ => None,
+        }
+    }
+}
